@@ -114,7 +114,7 @@ var c13MalformedList []c13Malformed
 
 func init() {
 	c13BuildPairs()
-	for _, op := range []string{"put", "get", "update", "delete", "batchwrite", "batchget"} {
+	for _, op := range []string{"put", "get", "update", "delete", "batchwrite", "batchget", "put-cond-false", "update-cond-false", "delete-cond-false", "put-cond-true"} {
 		for _, d := range []string{"missing-hash", "missing-range", "empty-key", "hash-empty-value", "range-empty-value"} {
 			c13MalformedList = append(c13MalformedList, c13Malformed{op, d})
 		}
@@ -477,6 +477,20 @@ func (p *c13) malformed(x *res, adapter string, ctx *runner.Ctx) {
 			op = mon.SetUpdate(spec.Name, key, "v", val.Num("3"))
 		case "delete":
 			op = adapt.Op{Kind: adapt.OpDelete, Table: spec.Name, Key: key}
+		case "put-cond-false", "put-cond-true":
+			// a condition does not turn a malformed request into a well-formed one that merely fails its check
+			it := key.Clone()
+			it["v"] = val.Num("2")
+			cnd := "attribute_exists(nosuchattr)"
+			if mf.op == "put-cond-true" {
+				cnd = "attribute_not_exists(nosuchattr)"
+			}
+			op = adapt.Op{Kind: adapt.OpPut, Table: spec.Name, Item: it, Cond: cnd}
+		case "update-cond-false":
+			op = mon.SetUpdate(spec.Name, key, "v", val.Num("3"))
+			op.Cond = "attribute_exists(nosuchattr)"
+		case "delete-cond-false":
+			op = adapt.Op{Kind: adapt.OpDelete, Table: spec.Name, Key: key, Cond: "attribute_exists(nosuchattr)"}
 		case "batchwrite":
 			it := key.Clone()
 			it["v"] = val.Num("2")
